@@ -301,34 +301,55 @@ def rule_r2(prog, res) -> None:
                 res.ok("C18.R2", res.site(r2), "override chains to the base reset")
             else:
                 res.violation("C18.R2", r2, r2.node, "override of _reset_iter_state does not call the base reset (counter keeps its value)", key_extra="reset-override-no-super")
-    # (4) slice normal forms in every sliced _get_next_chunk
+    # (4) slice normal forms in every sliced _get_next_chunk: decided on the substituted slice bounds
+    # (locals, tuple-returning helpers and closures of nested functions are looked through)
+    from .. import symx
+
+    def is_bounded_self_slice(x) -> bool:
+        return isinstance(x, ast.Subscript) and isinstance(x.slice, ast.Slice) and x.slice.lower is not None and x.slice.upper is not None and "self." in unparse(x.value)
+
+    def sliced_reads(f: FuncInfo, binding=None, _depth=0):
+        out = []
+        paths = symx.explore(prog, f, inline=lambda caller, call, callee: callee.cls is not None and callee.name != "_get_next_chunk", watch=is_bounded_self_slice, binding=binding)
+        for p in paths:
+            for ev in p.events:
+                if ev.kind == "expr":
+                    out.append(ev)
+                elif ev.kind == "def" and _depth < 2:
+                    inner = next((g for g in f.module.all_funcs if g.node is ev.node), None)
+                    if inner is not None:
+                        out.extend(sliced_reads(inner, {k: v for k, v in (ev.store or {}).items() if k not in inner.param_names()}, _depth + 1))
+        return out
+
     n_sliced = 0
     for ci in classes:
         m = ci.methods.get("_get_next_chunk")
         if m is None or m.is_abstract:
             continue
-        funcs = [m] + [f for f in m.module.all_funcs if f.parent is m]
-        for f in funcs:
-            resolve = single_def_resolver(f.node)
-            for x in walk_no_nested(f.node):
-                if isinstance(x, ast.Subscript) and isinstance(x.slice, ast.Slice) and x.slice.lower is not None and x.slice.upper is not None:
-                    base_txt = unparse(x.value)
-                    if "self." not in base_txt:
-                        continue
-                    n_sliced += 1
-                    res.touch(m)
-                    lo, hi = affine(x.slice.lower, resolve), affine(x.slice.upper, resolve)
-                    if affine_eq(hi, {N: 1}) and affine_eq(lo, {N: 1, C: -1}):
-                        res.ok("C18.R2", res.site(m, unparse(x)[:50]), f"slice normalises to [{fmt_affine(lo)}, {fmt_affine(hi)}) = [N-C, N)")
-                    else:
-                        res.violation(
-                            "C18.R2",
-                            m,
-                            x,
-                            f"slice bounds normalise to [{fmt_affine(lo)}, {fmt_affine(hi)}) instead of [N-C, N) with N={N}, C={C}: "
-                            "chunks overlap, leave gaps or exceed the chunk size",
-                            key_extra=f"slice-form-{ci.name}",
-                        )
+        seen_nodes = set()
+        for ev in sliced_reads(m):
+            x = ev.expr
+            first = id(ev.node) not in seen_nodes
+            seen_nodes.add(id(ev.node))
+            if first:
+                n_sliced += 1
+            res.touch(m)
+            try:
+                lo, hi = affine(x.slice.lower), affine(x.slice.upper)
+            except Exception:  # noqa: BLE001 - a non-affine bound is itself not of the form [N-C, N)
+                lo, hi = {unparse(x.slice.lower): 1}, {unparse(x.slice.upper): 1}
+            if affine_eq(hi, {N: 1}) and affine_eq(lo, {N: 1, C: -1}):
+                if first:
+                    res.ok("C18.R2", res.site(m, unparse(ev.node)[:50]), f"slice normalises to [{fmt_affine(lo)}, {fmt_affine(hi)}) = [N-C, N)")
+            else:
+                res.violation(
+                    "C18.R2",
+                    m,
+                    ev.node,
+                    f"slice bounds normalise to [{fmt_affine(lo)}, {fmt_affine(hi)}) instead of [N-C, N) with N={N}, C={C}: "
+                    "chunks overlap, leave gaps or exceed the chunk size",
+                    key_extra=f"slice-form-{ci.name}",
+                )
     if n_sliced < 3:
         raise AnalysisError(f"C18.R2: only {n_sliced} sliced reads found in _get_next_chunk implementations, minimum 3")
     # (5) parquet: remainder goes back to the left, delivered part is the complement
